@@ -461,6 +461,58 @@ def rule_once(program, ctx, prop=P, rid="C12.once"):
             ctx.ok(rid, y, "rows are yielded from a single execution of the statement")
 
 
+def rule_limitstore(program, ctx, prop=P, rid="C12.limitstore"):
+    ctx.rule(
+        rid,
+        "a filter's limit is what the client sent: nothing outside the NostrQuery model assigns `<query>.limit` (a default filled in with a truthiness test turns the legal "
+        "`limit: 0` into the default; the cap by max_limit is applied where the stored query is built, not by rewriting the filter)",
+        floor=1,
+    )
+    n = 0
+    for fn in {id(f): f for f in program.functions.values()}.values():
+        m = getattr(fn, "_module", None)
+        if m is None or not m.name.startswith("nostr_relay"):
+            continue
+        for s_ in walk_no_nested(fn):
+            tg = s_.targets if isinstance(s_, ast.Assign) else [s_.target] if isinstance(s_, (ast.AugAssign, ast.AnnAssign)) else []
+            for t in tg:
+                if isinstance(t, ast.Attribute) and t.attr == "limit" and not (isinstance(t.value, ast.Name) and t.value.id in ("self", "plan")):
+                    n += 1
+                    ctx.bad(finding_at(prop, rid, s_, f"{qual_of(fn)} rewrites a filter's limit (`{ast.unparse(s_)[:60]}`): the number of stored events sent no longer follows the client's limit "
+                                       "(0, or a limit larger than the matching set)"))
+            if isinstance(s_, ast.Expr) and isinstance(s_.value, ast.Call) and call_name(s_.value) == "setattr" and len(s_.value.args) == 3 and isinstance(s_.value.args[1], ast.Constant) and s_.value.args[1].value == "limit":
+                ctx.bad(finding_at(prop, rid, s_, f"{qual_of(fn)} rewrites a filter's limit through setattr"))
+    ctx.ok(rid, program.cls("nostr_relay.storage.base:NostrQuery").node, "no store to <filter>.limit outside the model")
+
+
+def rule_plain_send(program, ctx, prop=P, rid="C12.plainsend"):
+    ctx.rule(
+        rid,
+        "the stored events a query selected are all written to the socket: start_client hands send_subscriptions the connection's own `ws_send`, not a wrapper that can abandon "
+        "a frame (a send timeout raises inside the sender's catch-all `except Exception: log` - that one EVENT is dropped, the older ones and EOSE still go out: a newer "
+        "matching event is missing from a limit-n answer)",
+        floor=1,
+    )
+    sc = program.func("nostr_relay.web:start_client")
+    reb = [s_ for s_ in stores_of(sc, "ws_send")]
+    for s_ in reb:
+        ctx.bad(finding_at(prop, rid, s_, f"start_client re-binds ws_send (`{ast.unparse(s_)[:60]}`): the sender task writes through the wrapper"))
+    calls = [c for c in ast.walk(sc) if isinstance(c, ast.Call) and call_name(c) == "send_subscriptions"]
+    for c in calls:
+        if len(c.args) >= 2 and dotted(c.args[1]) == "ws_send" and not reb:
+            ctx.ok(rid, c, "send_subscriptions(<queue get>, ws_send, log) with the connection's own send function")
+        elif len(c.args) < 2 or dotted(c.args[1]) != "ws_send":
+            ctx.bad(finding_at(prop, rid, c, f"send_subscriptions is given `{ast.unparse(c.args[1])[:40] if len(c.args) > 1 else ''}` instead of the connection's ws_send"))
+    if not calls:
+        raise AnalysisError("start_client no longer starts send_subscriptions")
+    ss = program.func("nostr_relay.web:send_subscriptions")
+    for w in walk_no_nested(ss):
+        if isinstance(w, (ast.With, ast.AsyncWith)) and any(isinstance(it.context_expr, ast.Call) and call_name(it.context_expr).split(".")[-1] in ("timeout", "timeout_at") for it in w.items):
+            ctx.bad(finding_at(prop, rid, w, "the sender abandons a frame after a timeout: that stored event is not delivered"))
+        if isinstance(w, ast.Call) and call_name(w).split(".")[-1] == "wait_for":
+            ctx.bad(finding_at(prop, rid, w, "the sender abandons a frame after a timeout (wait_for): that stored event is not delivered - or is written twice when retried"))
+
+
 def run(program, ctx):
     from .c13 import rule_every_item_sent
     from ..lib import rule_awaited
@@ -482,6 +534,8 @@ def run(program, ctx):
     ]
     ctx.rule("C12.sender", "the sender forwards every pair the stored query queued: send_subscriptions has no path from the dequeue to the loop head without ws_send", floor=1)
     rule_every_item_sent(program, ctx, prop=P, rid="C12.sender")
+    rule_limitstore(program, ctx)
+    rule_plain_send(program, ctx)
     from .c01 import rule_hex_total
     rule_hex_total(program, ctx, prop=P, rid="C12.hextotal")
 
